@@ -61,7 +61,10 @@ namespace sim
 			std::lock_guard<std::mutex> l(m_timer_queue_mutex);
 			if (!m_timer_queue.empty()) {
 				asio::high_resolution_timer* next_timer = *m_timer_queue.begin();
-				chrono::high_resolution_clock::fast_forward(next_timer->expiry() - now);
+				// never move the clock backwards: a timer may have been armed with
+				// an expiry that is already in the past
+				if (next_timer->expiry() > now)
+					chrono::high_resolution_clock::fast_forward(next_timer->expiry() - now);
 
 				now = chrono::high_resolution_clock::now();
 
